@@ -1308,6 +1308,14 @@ class FnTranslator:
                 self.pre.append('%s = vec_%s_ctor_n(%s);' % (self.decl(ct, tn), tag(ct[1]), self.ex(args[0])))
                 self.after_call(True)
                 return tn
+            real_args = [a for a in args if a.get('kind') != 'CXXDefaultArgExpr']
+            if len(real_args) == 2 and strip_ref(self.T(real_args[0]))[0] == 'int' and not is_owning(ct[1], self.P_records()):
+                # vector(n, value)
+                self.U.need_model('vec', ct)
+                tn = self.tmp()
+                self.pre.append('%s = vec_%s_ctor_n_val(%s, %s);' % (self.decl(ct, tn), tag(ct[1]), self.ex(real_args[0]), self.rvalue_for(real_args[1], ct[1])))
+                self.after_call(True)
+                return tn
             raise Unsupported('vector constructor %s' % ctor_t)
         if ct[0] == 'opt':
             if len(args) == 1:
@@ -1534,6 +1542,30 @@ class FnTranslator:
             if name == 'copy':
                 return '((void)verif_memcpy(%s, %s, sizeof(*(%s)) * (size_t)((%s) - (%s))), (%s) + ((%s) - (%s)))' % (a[2], a[0], a[0], a[1], a[0], a[2], a[1], a[0])
             return '((void)verif_memcpy(%s, %s, sizeof(*(%s)) * (size_t)(%s)), (%s) + (%s))' % (a[2], a[0], a[0], a[1], a[2], a[1])
+        if name in ('epsilon', 'max', 'min', 'lowest', 'infinity') and len(args) == 0:
+            # std::numeric_limits<T>::f(): a constant of the result type
+            t = strip_ref(self.T(n))
+            ct = self.ctype(t)
+            consts = {
+                ('double', 'epsilon'): '2.220446049250313e-16', ('double', 'max'): '1.7976931348623157e308',
+                ('double', 'min'): '2.2250738585072014e-308', ('double', 'lowest'): '(-1.7976931348623157e308)',
+                ('double', 'infinity'): '(1.0/0.0)',
+                ('float', 'epsilon'): '1.1920928955078125e-7f', ('float', 'max'): '3.4028234663852886e38f',
+                ('float', 'min'): '1.1754943508222875e-38f', ('float', 'lowest'): '(-3.4028234663852886e38f)',
+                ('int8_t', 'max'): '127', ('int8_t', 'min'): '(-128)', ('uint8_t', 'max'): '255', ('uint8_t', 'min'): '0',
+                ('int16_t', 'max'): '32767', ('int16_t', 'min'): '(-32768)', ('uint16_t', 'max'): '65535', ('uint16_t', 'min'): '0',
+                ('int32_t', 'max'): '2147483647', ('int32_t', 'min'): '(-2147483647-1)', ('uint32_t', 'max'): '4294967295u', ('uint32_t', 'min'): '0u',
+                ('int64_t', 'max'): '9223372036854775807LL', ('int64_t', 'min'): '(-9223372036854775807LL-1)',
+                ('uint64_t', 'max'): '18446744073709551615ULL', ('uint64_t', 'min'): '0ULL',
+                ('int', 'max'): '2147483647', ('int', 'min'): '(-2147483647-1)',
+                ('size_t', 'max'): '18446744073709551615ULL', ('size_t', 'min'): '0ULL',
+            }
+            for k in list(consts):
+                if k[1] == 'min' and (k[0], 'lowest') not in consts:
+                    consts[(k[0], 'lowest')] = consts[k]
+            if (ct, name) not in consts:
+                raise Unsupported('std::numeric_limits<%s>::%s' % (ct, name))
+            return '((%s)%s)' % (ct, consts[(ct, name)])
         if name in ('max', 'min'):
             t = strip_ref(self.T(n))
             a, b = self.ex(args[0]), self.ex(args[1])
@@ -1579,6 +1611,9 @@ class FnTranslator:
             return 'verif_%s(%s)' % (name, ', '.join(cargs))
         if name == 'system_category':
             return '0'
+        if name == 'now' and len(args) == 0:
+            # std::chrono::system_clock::now(): any tick count
+            return '((int64_t)nondet_size_t())'
         raise Unsupported('std/external function %s has no model (in %s)' % (name, self.key))
 
     def lambda_fn(self, lam, param_types):
@@ -1712,6 +1747,9 @@ class FnTranslator:
 
     def std_member(self, ot, name, o, args, n, want_ptr=False):
         self.hit('std-member:%s.%s' % (ot[0], name))
+        if ot[0] == 'int' and name == 'count' and not args:
+            # std::chrono::duration::count(): durations are their tick count
+            return '(*%s)' % o
         if ot[0] == 'vec':
             self.U.need_model('vec', ot)
             tg = tag(ot[1])
